@@ -35,7 +35,7 @@ TAG_KINDS = ["s", "t", "F", "c", "b", "s", "t"]
 
 # --------------------------------------------------------------------------- programs
 
-def programs(seed, n):
+def programs(seed, n, ncodegen=None):
     """specs with hash-seed sensitive symbolic tags"""
     from ..gen import comm as G
     out = []
@@ -69,6 +69,16 @@ def programs(seed, n):
     for spec in G.fanin_family():
         spec["c17_index"] = len(out)
         out.append(spec)
+    # hand-built family: parts with several outputs reaching different unnamed data wrappers;
+    # for these (and a sample of the others) the per-part code is generated and compared, too
+    for k, spec in enumerate(G.datawrapper_family()):
+        if ncodegen is not None and k % max(1, 48 // ncodegen) != 0:
+            continue
+        spec["c17_index"] = len(out)
+        spec["c17_codegen"] = True
+        out.append(spec)
+    for spec in out[:n:max(1, n // 5)]:
+        spec["c17_codegen"] = True
     return out
 
 
@@ -88,11 +98,50 @@ def _structure(expr, memo):
         r = ["IndexLambda", str(expr.expr), list(expr.shape), str(expr.dtype), tags,
              [[nm, _structure(expr.bindings[nm], memo)] for nm in sorted(expr.bindings)]]
     elif isinstance(expr, DataWrapper):
-        r = ["DataWrapper", list(expr.shape), str(expr.dtype), tags]
+        import hashlib
+        import numpy as np
+        r = ["DataWrapper", list(expr.shape), str(expr.dtype), tags,
+             hashlib.sha256(np.ascontiguousarray(expr.data).tobytes()).hexdigest()[:16]]
     else:
         r = [type(expr).__name__, tags]
     memo[k] = r
     return r
+
+
+def part_codegen(npart):
+    """the real generate_code_for_partition on this rank's (numbered) partition; per part: the
+    canonical kernel dump (harness/cexec.canonical_dump — never str(t_unit)), the generated
+    source, the argument order and the bound-argument names with a digest of their data"""
+    import hashlib
+    import numpy as np
+    import loopy as lp
+    from pytato.distributed.execute import generate_code_for_partition
+    from .. import cexec
+    try:
+        prgs = generate_code_for_partition(npart)
+    except Exception as e:      # noqa: BLE001
+        return {"error": f"{type(e).__name__}: {str(e)[:120]}"}
+    out = []
+    for pid in sorted(prgs):
+        bp = prgs[pid]
+        rec = {"pid": pid}
+        rec["kernel"] = json.dumps(cexec.canonical_dump(bp.program), sort_keys=True, default=str)
+        rec["arg_order"] = [a.name for a in bp.program.default_entrypoint.args]
+        try:
+            rec["source"] = lp.generate_code_v2(bp.program).device_code()
+        except Exception as e:      # noqa: BLE001
+            rec["source_error"] = type(e).__name__
+        bound = {}
+        for nm in sorted(bp.bound_arguments):
+            v = bp.bound_arguments[nm]
+            try:
+                a = np.ascontiguousarray(v if isinstance(v, np.ndarray) else np.asarray(v))
+                bound[nm] = [list(a.shape), str(a.dtype), hashlib.sha256(a.tobytes()).hexdigest()[:16]]
+            except Exception as e:      # noqa: BLE001
+                bound[nm] = ["?", type(v).__name__, type(e).__name__]
+        rec["bound_arguments"] = bound
+        out.append(rec)
+    return out
 
 
 def summarize(spec, rank, part, npart, next_tag, table):
@@ -119,13 +168,16 @@ def summarize(spec, rank, part, npart, next_tag, table):
         except Exception as e:       # key builder cannot digest the expression
             key = f"key-error:{type(e).__name__}"
         outputs[nm] = {"persistent_key": key, "structure": _structure(part.name_to_output[nm], memo)}
+    codegen = None
+    if spec.get("c17_codegen"):
+        codegen = part_codegen(npart)
     tab = None
     if table is not None:
         m, nx = table
         tab = {"table": sorted([distrun.tag_index(spec, k), v] for k, v in m.items()), "next": nx}
     return {"nparts": len(parts), "parts": parts, "overall_output_names": list(part.overall_output_names),
             "name_to_output_keys": list(part.name_to_output), "outputs": outputs,
-            "next_tag": next_tag, "tag_table": tab}
+            "next_tag": next_tag, "tag_table": tab, "codegen": codegen}
 
 
 # --------------------------------------------------------------------------- child: one rank per process
@@ -319,6 +371,19 @@ def _what(path: str) -> str:
     return p.split(".structure")[0] if ".structure" in p else p
 
 
+def _differing_part_has_aliased_outputs(a, path):
+    import re
+    m = re.match(r"codegen\[(\d+)\]", path)
+    if not m or not isinstance(a.get("codegen"), list):
+        return False
+    pid = a["codegen"][int(m.group(1))]["pid"]
+    for p in a["parts"]:
+        if p["pid"] == pid:
+            keys = [json.dumps(a["outputs"][nm]["structure"]) for nm in p["output_names"] if nm in a["outputs"]]
+            return len(set(keys)) < len(keys)
+    return False
+
+
 def _only_int_tags_differ(a, b):
     """the two summaries agree once the integer tags / tag table are blanked"""
     def blank(x):
@@ -336,7 +401,7 @@ def run(ctx):
     from .. import common
     nprog = 600 if ctx.thorough else 100
     timeout = 120.0
-    specs = programs(ctx.seed, nprog)
+    specs = programs(ctx.seed, nprog, None if ctx.thorough else 12)
     sock = str(ctx.scratch / "c17dist.sock")
     listener = Listener(sock, family="AF_UNIX")
     env0 = dict(os.environ)
@@ -422,7 +487,7 @@ def run(ctx):
     # ---- compare
     labels = sorted(results)
     ref_label = labels[0]
-    n_cases = n_dis = n_rank_summaries = 0
+    n_cases = n_dis = n_rank_summaries = n_kernels = 0
     tagkinds: dict = {}
     for spec in specs:
         idx = spec["c17_index"]
@@ -448,12 +513,21 @@ def run(ctx):
             for r in range(spec["nranks"]):
                 n_rank_summaries += 1
                 a, b = base[r][1], runs[lb][r][1]
+                if isinstance(a.get("codegen"), list):
+                    n_kernels += len(a["codegen"])
                 if json.dumps(a, sort_keys=True) == json.dumps(b, sort_keys=True):
                     continue
                 bad = True
                 path = first_difference(a, b) or "?"
                 what = _what(path)
                 fam = "tags" if _only_int_tags_differ(a, b) else "partition"
+                if path.startswith("codegen"):
+                    fam = "part-codegen"
+                    what = what.replace("codegen.", "", 1) if what != "codegen" else what
+                    if _differing_part_has_aliased_outputs(a, path):
+                        # one array under several output names of the part: which name is computed and
+                        # which are copies follows the frozenset order of part.output_names
+                        what = "aliased-outputs"
                 ctx.violation(f"process-independence:{fam}:{what}",
                               f"program {idx} rank {r}: '{path}' differs between run '{ref_label}' and run '{lb}'",
                               dict(replay, rank=r, run_a=ref_label, run_b=lb, field=path,
@@ -472,6 +546,8 @@ def run(ctx):
                         "rank0_summary_head": {k: base[0][1][k] for k in ("nparts", "overall_output_names", "tag_table")}})
     ctx.note_batch("distributed-partition-and-tags-across-hash-seeds", n_cases, n_dis, exhaustive=False,
                    nontrivial=n_cases, runs=labels, rank_summaries_compared=n_rank_summaries,
+                   programs_with_part_codegen=sum(1 for sp in specs if sp.get("c17_codegen")),
+                   part_kernels_compared=n_kernels,
                    tag_kinds=tagkinds,
                    how="each program partitioned + tag-numbered by the real code in every run (ranks in separate "
                        "interpreters with different PYTHONHASHSEEDs; all ranks in one interpreter per seed); "
